@@ -94,6 +94,36 @@ fn main() {
             }
             println!("{}", json!({"unknown": us.len(), "cands": cs.len()}));
         }
+        ("replay", "nmg") => {
+            let cases = load_cases(&args[3]);
+            let mut prop: Vec<Value> = vec![];
+            let mut nprop = 0usize;
+            let mut unspec = 0usize;
+            for (i, c) in cases.iter().enumerate() {
+                if c["unspecified"] == true { unspec += 1; }
+                let (o, src) = vh::nmg::replay_one(c, i);
+                if !o.prop.is_empty() {
+                    nprop += 1;
+                    if prop.len() < 40 { prop.push(json!({"case": c, "why": o.prop, "key": format!("nmg:{}", src)})); }
+                }
+            }
+            let samples: Vec<Value> = cases.iter().enumerate().step_by((cases.len() / 3).max(1)).take(3).map(|(i, c)| json!({"ts": c["ts"], "source": vh::nmg::materialise(c["ts"].as_array().unwrap(), i), "expect": c["expect"]})).collect();
+            println!("{}", json!({"cases": cases.len(), "prop_mismatch": nprop, "model_drift": 0, "unspecified": unspec, "prop": prop, "model": [], "samples": samples,
+                                   "counts": {"token_streams_parsed": cases.len() * 3}}));
+        }
+        ("replay", "routing") => {
+            let cases = load_cases(&args[3]);
+            let mut prop: Vec<Value> = vec![];
+            let mut model: Vec<Value> = vec![];
+            let (mut nprop, mut nmodel) = (0usize, 0usize);
+            for (i, c) in cases.iter().enumerate() {
+                let o = vh::routing::replay_one(c, i);
+                if !o.prop.is_empty() { nprop += 1; if prop.len() < 40 { prop.push(json!({"case": c, "why": o.prop, "key": format!("routing:{}:{}:{}", c["S"], c["item"], c["mode"])})); } }
+                if !o.model.is_empty() { nmodel += 1; if model.len() < 5 { model.push(json!({"case": c, "why": o.model})); } }
+            }
+            let samples: Vec<&Value> = cases.iter().step_by((cases.len() / 3).max(1)).take(3).collect();
+            println!("{}", json!({"cases": cases.len(), "prop_mismatch": nprop, "model_drift": nmodel, "prop": prop, "model": model, "samples": samples}));
+        }
         ("record", "accum") => {
             let seed: u64 = args[3].parse().unwrap();
             let runs: usize = args[4].parse().unwrap();
